@@ -178,6 +178,17 @@ func definitive(r solveResult) bool { return r.status == "unsat" || r.status == 
 func solveOne(file string, timeoutS int, which []solverSpec) solveResult {
 	ctx, cancel := context.WithCancel(context.Background())
 	defer cancel()
+	// stage 0: most obligations are decided by the first solver within a fraction of a
+	// second; racing the whole portfolio on each of them only loads the machine
+	if len(which) > 1 && os.Getenv("GOVC_NOSTAGE") == "" {
+		t0 := 2
+		if timeoutS < t0 {
+			t0 = timeoutS
+		}
+		if r := runSolver(ctx, which[0], file, t0); definitive(r) {
+			return r
+		}
+	}
 	type tagged struct {
 		r solveResult
 		b bool
